@@ -149,6 +149,18 @@ def _leaf(kind):
     return kind.split(":")[1] if kind and kind.startswith("chain:") else kind
 
 
+class RealResp(str):
+    """The refusal of a real component (rate limiter, access control, certificate auth): only its status is fixed by
+    the properties; the text is whatever the component itself returned (recorded as mw-result by the spy wrapper)."""
+
+
+def _is_first_rejection(S: bytes, resp, log, mark=None) -> bool:
+    if not isinstance(resp, RealResp):
+        return S == resp.encode()
+    own = [e[5] for e in log if e[0] == "mw-result" and not e[3] and (mark is None or str(e[4]).endswith(mark))]
+    return S[:3] == resp[:3].encode() and any(isinstance(o, str) and S == o.encode() for o in own[:1])
+
+
 def reference(case):
     """Walk the chain: ('admit', None) | ('deny', response or None) | ('error', None)."""
     ip, fp = case["peer"], fp_of(case["cert"])
@@ -164,7 +176,7 @@ def reference(case):
             return "error", None
         if c["name"] == "ratelimit":
             if c["capacity"] == 0:
-                return "deny", "44 Rate limit exceeded. Retry after 30 seconds\r\n"
+                return "deny", RealResp("44 Rate limit exceeded. Retry after 30 seconds\r\n")
         elif c["name"] == "acl":
             denied = c["deny"] is not None and ip in c["deny"]
             if c["allow"] is not None:
@@ -172,17 +184,17 @@ def reference(case):
             else:
                 admitted = (not denied) and c["default_allow"]
             if not admitted:
-                return "deny", "53 Access denied\r\n"
+                return "deny", RealResp("53 Access denied\r\n")
         else:
             ep = eff_path(case)
             if ep.startswith(c["prefix"]) or (c["prefix"].endswith("/") and ep == c["prefix"][:-1]):
                 if c["require_cert"] and fp is None:
-                    return "deny", "60 Client certificate required\r\n"
+                    return "deny", RealResp("60 Client certificate required\r\n")
                 if c["allowed"] is not None:
                     if fp is None:
-                        return "deny", "60 Client certificate required\r\n"
+                        return "deny", RealResp("60 Client certificate required\r\n")
                     if _leaf(case["cert"]) not in c["allowed"]:
-                        return "deny", "61 Certificate not authorized\r\n"
+                        return "deny", RealResp("61 Certificate not authorized\r\n")
     return "admit", None
 
 
@@ -290,7 +302,7 @@ def judge(case, log, S, disconnected, fp, peer_ip, chain_len=None):
         return viol("refusal-not-well-formed", f"{S[:80]!r} ({wf})", **info)
     if 20 <= wf[0] <= 29 and not (ref == "deny" and resp is not None and resp[:1] == "2"):
         return viol("refused-request-got-2x", f"{S[:60]!r}", **info)
-    if ref == "deny" and resp is not None and S != resp.encode():
+    if ref == "deny" and resp is not None and not _is_first_rejection(S, resp, log):
         return viol("not-first-rejection", f"expected {resp!r} got {S[:60]!r}", **info)
     return ok(**info)
 
@@ -570,7 +582,7 @@ def run_overlap(case: dict):
                             f"but the handler ran; other connections in flight: {[x for j, x in enumerate(case['conns']) if j != i]}", **info)
             if S[:1] == b"2" and not (ref == "deny" and resp is not None and resp[:1] == "2"):
                 return viol("refused-request-got-2x", f"connection {i}: {S[:40]!r}", **info)
-            if ref == "deny" and resp is not None and S != resp.encode():
+            if ref == "deny" and resp is not None and not _is_first_rejection(S, resp, sim.log, mark):
                 return viol("not-first-rejection", f"connection {i}: expected {resp!r} got {S[:60]!r}", **info)
     for e in sim.log:
         if e[0] == "mw-enter":
